@@ -56,6 +56,11 @@ def mat : PTree R α → Mat R
   | leaf P _ => P
   | node P _ => P
 
+/-- the same node below a different top edge -/
+def setMat (Q : Mat R) : PTree R α → PTree R α
+  | leaf _ a => leaf Q a
+  | node _ cs => node Q cs
+
 def children : PTree R α → List (PTree R α)
   | leaf _ _ => []
   | node _ cs => cs
@@ -76,6 +81,16 @@ def leaves : PTree R α → List α
 def leavesL : List (PTree R α) → List α
   | [] => []
   | c :: cs => leaves c ++ leavesL cs
+end
+
+mutual
+/-- the substitution matrices of all edges of the (sub)tree (the top node's own matrix excluded) -/
+def edgeMats : PTree R α → List (Mat R)
+  | leaf _ _ => []
+  | node _ cs => edgeMatsL cs
+def edgeMatsL : List (PTree R α) → List (Mat R)
+  | [] => []
+  | c :: cs => c.mat :: (edgeMats c ++ edgeMatsL cs)
 end
 
 mutual
